@@ -53,9 +53,21 @@ static uint8_t input[1 << 16]; static size_t inlen, inpos; static long out_bytes
 static long input_batches, holds_entered, lockfree_queries_in_handlers, bad_lockfree, event_handler_chains;
 /* what the host sees is one byte stream: the producer (event machine in hook phase 1, command machine in phase 2) may change only behind a newline */
 static long wire_torn; static int last_producer; static char last_byte = '\n';
+/* every line of the event machine is the text of an event of one of the producer commands ("+P<n>=..."): never empty, never something else */
+static long event_lines, event_lines_bad; static int ev_st; static char ev_txt[8]; static int ev_len;
+static void event_byte(char c)
+{
+        if (c == '\r') return;
+        if (c != '\n') { if (ev_len < (int)sizeof ev_txt) ev_txt[ev_len] = c; ev_len++; ev_st = 1; return; }
+        if (ev_st == 0 && ev_len == 0) { ev_st = 1; return; }      /* leading newline */
+        event_lines++;
+        if (ev_len < 4 || ev_txt[0] != '+' || ev_txt[1] != 'P' || ev_txt[2] < '0' || ev_txt[2] > '7' || ev_txt[3] != '=') event_lines_bad++;
+        ev_st = 0; ev_len = 0;
+}
 static int io_write(char c)
 {
         if (srnd() % 100 >= p_write) { write_refusals++; return 0; }
+        if (phase == 1) event_byte(c);
         if (last_producer && phase != last_producer && last_byte != '\n') wire_torn++;
         last_producer = phase; last_byte = c;
         out_bytes++; return 1;
@@ -202,10 +214,10 @@ int main(int argc, char **argv)
         for (int p = 0; p < P; p++) { long a = atomic_load(&accepted[p]), d = atomic_load(&delivered[p]); acc += a; del += d; ref += atomic_load(&refused[p]); if (a != d) bad++; }
         printf("{\"producers\":%d,\"cap\":%d,\"seed\":%llu,\"triggers_per_producer\":%ld,\"accepted\":%ld,\"refused_full\":%ld,\"delivered\":%ld,\"producers_with_mismatch\":%d,"
                "\"lock_calls\":%ld,\"handovers\":%ld,\"contended_locks\":%ld,\"service_calls\":%ld,\"holds_entered\":%ld,\"hold_exits_ok\":%ld,\"hold_exits_not_hold\":%ld,\"queries\":%ld,"
-               "\"write_refusals\":%ld,\"lockfree_queries_in_handlers\":%ld,\"bad_lockfree\":%ld,\"lock_failures\":%ld,\"odd_status\":%ld,\"unlock_errors\":%ld,\"frozen_checks\":%ld,\"frozen_violations\":%ld,\"var_read_failures\":%ld,\"event_handler_chains\":%ld,\"wire_torn\":%ld,\"input_batches\":%ld,\"per_producer\":[",
+               "\"write_refusals\":%ld,\"lockfree_queries_in_handlers\":%ld,\"bad_lockfree\":%ld,\"lock_failures\":%ld,\"odd_status\":%ld,\"unlock_errors\":%ld,\"frozen_checks\":%ld,\"frozen_violations\":%ld,\"var_read_failures\":%ld,\"event_handler_chains\":%ld,\"wire_torn\":%ld,\"input_batches\":%ld,\"event_lines\":%ld,\"event_lines_bad\":%ld,\"per_producer\":[",
                P, (int)CAT_UNSOLICITED_CMD_BUFFER_SIZE, (unsigned long long)seed, T, acc, ref, del, bad, lock_calls, handovers, atomic_load(&contended), services, holds_entered,
-               atomic_load(&hold_exits_ok), atomic_load(&hold_exits_nothold), atomic_load(&queries), write_refusals, lockfree_queries_in_handlers, bad_lockfree, atomic_load(&lock_failures), atomic_load(&odd_status), atomic_load(&unlock_errors), atomic_load(&frozen_checks), atomic_load(&frozen_violations), var_read_failures, event_handler_chains, wire_torn, input_batches);
+               atomic_load(&hold_exits_ok), atomic_load(&hold_exits_nothold), atomic_load(&queries), write_refusals, lockfree_queries_in_handlers, bad_lockfree, atomic_load(&lock_failures), atomic_load(&odd_status), atomic_load(&unlock_errors), atomic_load(&frozen_checks), atomic_load(&frozen_violations), var_read_failures, event_handler_chains, wire_torn, input_batches, event_lines, event_lines_bad);
         for (int p = 0; p < P; p++) printf("%s[%ld,%ld,%ld]", p ? "," : "", atomic_load(&accepted[p]), atomic_load(&refused[p]), atomic_load(&delivered[p]));
         printf("]}\n");
-        return (bad || atomic_load(&odd_status) || atomic_load(&unlock_errors) || atomic_load(&frozen_violations) || wire_torn) ? 1 : 0;
+        return (bad || atomic_load(&odd_status) || atomic_load(&unlock_errors) || atomic_load(&frozen_violations) || wire_torn || event_lines_bad) ? 1 : 0;
 }
